@@ -98,7 +98,7 @@ def c22ok (bs : Bytes) (p : Pkt) (re : Bytes) : Bool :=
 
 /-! ## C21: legal packets -/
 
-def maxPayload : Nat := Gen.MaxPayloadLength
+abbrev maxPayload : Nat := Gen.MaxPayloadLength
 
 /-- Field values "in their legal ranges" (C21): the widths are those of the struct
     fields; names the decoder requires to be non-empty are non-empty; variable parts are at
